@@ -41,6 +41,11 @@ def fresh_like(I, v, base='hv'):
         return VTuple([fresh_like(I, it, base) for it in v.items])
     if isinstance(v, VNone):
         return v
+    if isinstance(v, sym.VSet):
+        c = I.st.heap[v.loc]
+        I.st.heap[v.loc] = c.replace(member=z3.Const(sym.fresh_name(base), c.member.sort()),
+                                     card=None if c.card is None else z3.Int(sym.fresh_name(base + '_card')))
+        return v
     raise Unsupported('havoc of %r' % (v,))
 
 
